@@ -17,8 +17,10 @@ package dns64
 //@ func bytesAllZero
 //@   modifies nothing
 //@   ensures result <==> forall i int :: {b[i]} 0 <= i && i < len(b) ==> b[i] == 0
+//@   ensures result ==> forall p int :: {at(b, p)} offset(b) <= p && p < offset(b) + len(b) ==> at(b, p) == 0
 //@   loop 1 invariant 0 <= rangeidx && rangeidx <= len(b)
 //@   loop 1 invariant forall a int :: {b[a]} 0 <= a && a < rangeidx ==> b[a] == 0
+//@   loop 1 invariant forall p int :: {at(b, p)} offset(b) <= p && p < offset(b) + rangeidx ==> at(b, p) == 0
 //@
 //@ func hexNibble
 //@   modifies nothing
@@ -40,7 +42,12 @@ package dns64
 //@ func extractIPv4
 //@   requires validPfx(prefix) && len(addr) == 16 && !v4mapped16(addr) && !v4mapped16(prefix.IP)
 //@   uses valid_prefix_bits
-//@   ensures result1 ==> len(result0) == 4 && embedded(addr, prefix.IP, result0, maskOnes(prefix.Mask))
+//@   ensures result1 ==> len(result0) == 4
+//@   ensures result1 ==> forall i int :: {addr[i]} 0 <= i && i < maskOnes(prefix.Mask)/8 ==> addr[i] == prefix.IP[i]
+//@   ensures result1 ==> addr[v4pos(maskOnes(prefix.Mask), 0)] == result0[0] && addr[v4pos(maskOnes(prefix.Mask), 1)] == result0[1]
+//@   ensures result1 ==> addr[v4pos(maskOnes(prefix.Mask), 2)] == result0[2] && addr[v4pos(maskOnes(prefix.Mask), 3)] == result0[3]
+//@   ensures result1 ==> forall i int :: {addr[i]} maskOnes(prefix.Mask)/8 <= i && i < 16 && !isV4pos(maskOnes(prefix.Mask), i) ==> addr[i] == 0
+//@   ensures result1 ==> embedded(addr, prefix.IP, result0, maskOnes(prefix.Mask))
 //@   ensures result1 && maskOnes(prefix.Mask) < 96 ==> addr[8] == 0
 //@
 //@ axiom valid_prefix_bits: forall b int :: {validPrefixBits[b]} validPrefixBits[b] <==> okBits(b)
